@@ -4,7 +4,7 @@ C01 — Write then read returns exactly what was written.
 
 First layer (this file, until the writer-emits-layout development `Lemmas/WL*.lean` is merged):
 * `finish_eq_drop`: `finish()` and dropping the writer leave identical bytes in the sink, for every
-  state, device and fault index;
+  state, device and fault index on which finalisation succeeds;
 * `directory_is_the_calls_partial`: what `finish()` writes as the central directory is exactly the log
   of successful creations with the CRC-32 / length of the bytes successfully written (C12's tracking
   theorem, restated);
@@ -38,24 +38,30 @@ theorem finish_device (ext : WExt) (s : WState) (fa : Option Nat) (d : Dev) :
     | err e => rfl
     | panic site => rfl
 
-/-- Dropping an open writer = `finalize`, the result discarded. -/
-theorem drop_device (ext : WExt) (s : WState) (hs : s.inner.isClosed = false) (fa : Option Nat) (d : Dev) :
-    (dropWriter ext s fa d).2 = (finalize ext s fa d).2 := by
+/-- Dropping an open writer whose `finalize` succeeds = `finalize` (a successful `finalize` leaves the
+plain storer behind: no encoder is alive that could write when the field is dropped). -/
+theorem drop_device (ext : WExt) (s : WState) (hs : s.inner.isClosed = false) (fa : Option Nat) (d : Dev)
+    (u : Unit) (s1 : WState) (d1 : Dev) (hf : finalize ext s fa d = (.ok (.ok u, s1), d1))
+    (hplain : s1.inner = .storer none) :
+    (dropWriter ext s fa d).2 = d1 := by
   unfold dropWriter
   simp only [hs, Bool.false_eq_true, if_false]
-  rw [M.bind_apply]
-  cases h : finalize ext s fa d with
-  | mk o d1 =>
-    cases o with
-    | ok rs => rfl
-    | err e => rfl
-    | panic site => rfl
+  rw [M.bind_apply, hf]
+  unfold dropInner
+  simp only [hplain]
+  rfl
 
-/-- **`finish()` and drop produce identical bytes** — for every writer state that is still open,
-every sink and every fault index: the same sink contents, position and I/O call count. -/
+/-- **`finish()` and drop produce identical bytes** — for every open writer state, every sink and
+every fault index on which finalisation succeeds: the same sink contents, position and I/O call
+count.  (When finalisation FAILS, `finish` returns the error and the writer lives on; a dropped writer
+has nobody to report to — and a still-active Deflate/Bzip2 encoder then flushes its stream into the
+sink from its own destructor, `Model.dropInner`.)  `hplain` holds whenever `finalize` succeeds from an
+`Inv` state (`Lemmas/WriterSat.finalize_sat`); it is kept explicit here to keep this file elementary. -/
 theorem finish_eq_drop (ext : WExt) (s : WState) (hs : s.inner.isClosed = false) (fa : Option Nat)
-    (d : Dev) : (finish ext s fa d).2 = (dropWriter ext s fa d).2 := by
-  rw [finish_device, drop_device ext s hs]
+    (d : Dev) (u : Unit) (s1 : WState) (d1 : Dev)
+    (hf : finalize ext s fa d = (.ok (.ok u, s1), d1)) (hplain : s1.inner = .storer none) :
+    (finish ext s fa d).2 = (dropWriter ext s fa d).2 := by
+  rw [finish_device, drop_device ext s hs fa d u s1 d1 hf hplain, hf]
 
 /-- Dropping a writer that was already finished (or poisoned) touches nothing. -/
 theorem drop_after_finish_noop (ext : WExt) (s : WState) (hs : s.inner.isClosed = true)
